@@ -23,6 +23,11 @@ static int check(var t, const char* trace) {
 }
 int main(int argc, char** argv) {
   /* ops: 0..NK-1 = set(key i), NK..2NK-1 = rem(key i), 2NK = resize(0) */
+  { var e = new(Table, Int, Int); set(e, $I(1), $I(2)); resize(e, 0); int raised = 0;
+    try { rem(e, $I(1)); } catch (x in KeyError) { raised = 1; }
+    if (!raised || len(e) != 0) { printf("REPRODUCED: rem of an absent key on a table emptied by resize(t, 0) did not raise KeyError\n"); return 1; }
+    raised = 0; try { get(e, $I(1)); } catch (x in KeyError) { raised = 1; }
+    if (!raised || mem(e, $I(1))) { printf("REPRODUCED: get / mem on a table emptied by resize(t, 0)\n"); return 1; } }
   int nops = 2 * NK + 1, depth = 5;
   long total = 1; for (int d = 0; d < depth; d++) total *= nops;
   for (long code = 0; code < total; code++) {
